@@ -44,16 +44,21 @@ SameStored(o, r) == IF LpFree(r) THEN Norm(o) = Norm(RecvRec(r)) ELSE o = RecvRe
 ---------------------------------------------------------------------------
 (* the BMP station *)
 
-StInit == [on |-> FALSE, pol |-> "none", started |-> FALSE, up |-> {}, locup |-> FALSE,
-           pre |-> NoTbl, post |-> NoTbl, loc |-> {}, locp |-> [x \in Prefixes |-> NoRoute],
-           viol |-> {}, n |-> 0]
+EmptyLoc == [x \in Prefixes |-> NoRoute]
+(* ghost: neighbours de-configured while their bracket was open (set by the trace spec, an INPUT fact);
+   ip: (neighbour, prefix) pairs reported in the initial post-policy dump of this monitoring session.
+   Both only serve the weakened (_KF) invariants. *)
+StInit == [on |-> FALSE, pol |-> "none", started |-> FALSE, initial |-> FALSE, up |-> {}, locup |-> FALSE,
+           pre |-> NoTbl, post |-> NoTbl, loc |-> {}, locp |-> EmptyLoc,
+           ghost |-> {}, ip |-> {}, viol |-> {}, n |-> 0]
 
 WantsPre(pol)  == pol \in {"pre", "all"}
 WantsPost(pol) == pol \in {"post", "all"}
 WantsLoc(pol)  == pol \in {"local", "all"}
 
-Note(st, tag) == [st EXCEPT !.viol = @ \cup {tag}]
-NoteIfNot(st, cond, tag) == IF cond THEN st ELSE Note(st, tag)
+(* a note is <<tag, who>> *)
+Note(st, tag, who) == [st EXCEPT !.viol = @ \cup {<<tag, who>>}]
+NoteIfNot(st, cond, tag, who) == IF cond THEN st ELSE Note(st, tag, who)
 
 (* peer header of a per-peer record = the session's: address (name), AS, BGP identifier *)
 HdrOk(m, p) == m.as = PInfo[p].as /\ m.rid = p
@@ -86,92 +91,97 @@ RECURSIVE PfxAnn(_, _, _)
 PfxAnn(T, ann, i) == IF i > Len(ann) THEN T
                      ELSE PfxAnn(IF ann[i].x \in Prefixes THEN [T EXCEPT ![ann[i].x] = ann[i].r] ELSE T, ann, i + 1)
 
-UnknownPfx(m) == \E i \in 1..Len(m.ann) : m.ann[i].x \notin Prefixes
-                 \/ \E i \in 1..Len(m.wd) : m.wd[i].x \notin Prefixes
+UnknownPfx(m) == \/ \E i \in 1..Len(m.ann) : m.ann[i].x \notin Prefixes
+                 \/ \E j \in 1..Len(m.wd) : m.wd[j].x \notin Prefixes
+AnnKeys(m, p) == {<<p, m.ann[i].x>> : i \in 1..Len(m.ann)}
+OnlyLocal(m) == \A i \in 1..Len(m.ann) : m.ann[i].r.src = LOCSRC
 
 StRm(st, m) ==
-  IF m.perr # "" \/ ~m.isupd THEN Note(st, "parse-rm")
+  IF m.perr # "" \/ ~m.isupd THEN Note(st, "parse-rm", "-")
   ELSE IF m.ptype = 3 THEN
-    LET s1 == NoteIfNot(st, st.locup, "bracket-locrib-rm")
-        s2 == NoteIfNot(s1, LocHdrOk(m), "hdr-locrib-rm")
-        s3 == NoteIfNot(s2, ~UnknownPfx(m), "unknown-prefix")
+    LET s1 == NoteIfNot(st, st.locup, "bracket-locrib-rm", "-")
+        s2 == NoteIfNot(s1, LocHdrOk(m), "hdr-locrib-rm", "-")
+        s3 == NoteIfNot(s2, ~UnknownPfx(m), "unknown-prefix", "-")
     IN [s3 EXCEPT !.loc = LocAnn(LocWd(@, m.wd, 1), m.ann, 1),
                   !.locp = PfxAnn(PfxWd(@, m.wd, 1), m.ann, 1)]
-  ELSE IF m.ptype # 0 THEN Note(st, "peer-type")
-  ELSE IF m.peer \notin Peers THEN Note(st, IF m.post THEN "unknown-peer-post" ELSE "unknown-peer")
+  ELSE IF m.ptype # 0 THEN Note(st, "peer-type", "-")
+  ELSE IF m.peer \notin Peers THEN
+    (* route monitoring for somebody who is not a neighbour: no Peer Up can have preceded it *)
+    Note(st, IF m.post /\ m.peer = "zero" /\ m.as = 0 /\ Len(m.wd) = 0 /\ OnlyLocal(m)
+             THEN "bracket-rm-local-post" ELSE "bracket-rm-unknown-peer", "-")
   ELSE
     LET p  == m.peer
-        s1 == NoteIfNot(st, p \in st.up, "bracket-rm")
-        s2 == NoteIfNot(s1, HdrOk(m, p), "hdr-rm")
-        s3 == NoteIfNot(s2, ~UnknownPfx(m), "unknown-prefix")
+        s1 == NoteIfNot(st, p \in st.up, "bracket-rm", p)
+        s2 == NoteIfNot(s1, HdrOk(m, p), "hdr-rm", p)
+        s3 == NoteIfNot(s2, ~UnknownPfx(m), "unknown-prefix", p)
     IN IF m.eor THEN s3
-       ELSE IF m.post THEN [s3 EXCEPT !.post = ApplyAnn(ApplyWd(@, p, m.wd, 1), p, m.ann, 1)]
+       ELSE IF m.post THEN [s3 EXCEPT !.post = ApplyAnn(ApplyWd(@, p, m.wd, 1), p, m.ann, 1),
+                                      !.ip = IF st.initial THEN @ \cup AnnKeys(m, p) ELSE @ \ AnnKeys(m, p)]
        ELSE [s3 EXCEPT !.pre = ApplyAnn(ApplyWd(@, p, m.wd, 1), p, m.ann, 1)]
 
 StUp(st, m) ==
-  IF m.perr # "" THEN Note(st, "parse-up")
+  IF m.perr # "" THEN Note(st, "parse-up", "-")
   ELSE IF m.ptype = 3 THEN
-    LET s1 == NoteIfNot(st, ~st.locup, "bracket-locrib-up-twice")
-        s2 == NoteIfNot(s1, LocHdrOk(m) /\ m.sent.as4 = LocalAS /\ m.sent.id = "self", "hdr-locrib-up")
-    IN [s2 EXCEPT !.locup = TRUE, !.loc = {}, !.locp = [x \in Prefixes |-> NoRoute]]
-  ELSE IF m.ptype # 0 THEN Note(st, "peer-type")
-  ELSE IF m.peer \notin Peers THEN Note(st, "unknown-peer")
+    LET s1 == NoteIfNot(st, ~st.locup, "bracket-locrib-up-twice", "-")
+        s2 == NoteIfNot(s1, LocHdrOk(m) /\ m.sent.as4 = LocalAS /\ m.sent.id = "self", "hdr-locrib-up", "-")
+    IN [s2 EXCEPT !.locup = TRUE, !.loc = {}, !.locp = EmptyLoc]
+  ELSE IF m.ptype # 0 THEN Note(st, "peer-type", "-")
+  ELSE IF m.peer \notin Peers THEN Note(st, "bracket-up-unknown-peer", "-")
   ELSE
     LET p  == m.peer
-        s1 == NoteIfNot(st, p \notin st.up, "bracket-up-twice")
-        s2 == NoteIfNot(s1, HdrOk(m, p), "hdr-up")
+        s1 == NoteIfNot(st, p \notin st.up, IF p \in st.ghost THEN "bracket-up-twice-ghost" ELSE "bracket-up-twice", p)
+        s2 == NoteIfNot(s1, HdrOk(m, p), "hdr-up", p)
         (* the OPENs carried are the session's: ours (AS, identifier) and the neighbour's *)
         s3 == NoteIfNot(s2, m.sent.as4 = LocalAS /\ m.sent.id = "self"
-                            /\ m.recv.as4 = PInfo[p].as /\ m.recv.id = p, "hdr-up-open")
+                            /\ m.recv.as4 = PInfo[p].as /\ m.recv.id = p, "hdr-up-open", p)
         (* RFC 7854 4.10 Local Address: "the local IP address associated with the peering TCP session" *)
-        s4 == NoteIfNot(s3, m.laddr = "self", "up-local-address")
-    IN [s4 EXCEPT !.up = @ \cup {p}, !.pre[p] = [x \in Prefixes |-> NoRoute],
-                  !.post[p] = [x \in Prefixes |-> NoRoute]]
+        s4 == NoteIfNot(s3, m.laddr = "self", IF m.laddr = "zero" THEN "up-local-address-unset" ELSE "up-local-address", p)
+    IN [s4 EXCEPT !.up = @ \cup {p}, !.ghost = @ \ {p}, !.pre[p] = EmptyLoc, !.post[p] = EmptyLoc,
+                  !.ip = {k \in @ : k[1] # p}]
 
 StDown(st, m) ==
-  IF m.perr # "" THEN Note(st, "parse-down")
+  IF m.perr # "" THEN Note(st, "parse-down", "-")
   ELSE IF m.ptype = 3 THEN
-    LET s1 == NoteIfNot(st, st.locup, "bracket-locrib-down")
-        s2 == NoteIfNot(s1, LocHdrOk(m), "hdr-locrib-down")
-    IN [s2 EXCEPT !.locup = FALSE, !.loc = {}, !.locp = [x \in Prefixes |-> NoRoute]]
-  ELSE IF m.ptype # 0 THEN Note(st, "peer-type")
-  ELSE IF m.peer \notin Peers THEN Note(st, "unknown-peer")
+    LET s1 == NoteIfNot(st, st.locup, "bracket-locrib-down", "-")
+        s2 == NoteIfNot(s1, LocHdrOk(m), "hdr-locrib-down", "-")
+    IN [s2 EXCEPT !.locup = FALSE, !.loc = {}, !.locp = EmptyLoc]
+  ELSE IF m.ptype # 0 THEN Note(st, "peer-type", "-")
+  ELSE IF m.peer \notin Peers THEN Note(st, "bracket-down-unknown-peer", "-")
   ELSE
     LET p  == m.peer
-        s1 == NoteIfNot(st, p \in st.up, "bracket-down-without-up")
-        s2 == NoteIfNot(s1, HdrOk(m, p), "hdr-down")
-    IN [s2 EXCEPT !.up = @ \ {p}, !.pre[p] = [x \in Prefixes |-> NoRoute],
-                  !.post[p] = [x \in Prefixes |-> NoRoute]]
+        s1 == NoteIfNot(st, p \in st.up, "bracket-down-without-up", p)
+        s2 == NoteIfNot(s1, HdrOk(m, p), "hdr-down", p)
+    IN [s2 EXCEPT !.up = @ \ {p}, !.ghost = @ \ {p}, !.pre[p] = EmptyLoc, !.post[p] = EmptyLoc,
+                  !.ip = {k \in @ : k[1] # p}]
+
+Forget(s) == [s EXCEPT !.up = {}, !.locup = FALSE, !.pre = NoTbl, !.post = NoTbl, !.loc = {}, !.locp = EmptyLoc,
+                       !.ghost = {}, !.ip = {}]
 
 StFold1(st0, m) ==
   LET st == [st0 EXCEPT !.n = @ + 1] IN
   (* every record is exactly as long as its header says (the token the splitter cut) *)
-  LET s0 == IF "declen" \in DOMAIN m THEN NoteIfNot(st, m.declen = m.toklen, "framing") ELSE st IN
-  CASE m.t = "init" -> LET s1 == NoteIfNot(s0, ~st.started, "init-twice")
-                       IN [s1 EXCEPT !.started = TRUE, !.up = {}, !.locup = FALSE, !.pre = NoTbl,
-                                     !.post = NoTbl, !.loc = {},
-                                     !.locp = [x \in Prefixes |-> NoRoute]]
-    [] m.t = "term" -> LET s1 == NoteIfNot(s0, st.started, "term-before-init")
-                       IN [s1 EXCEPT !.started = FALSE, !.up = {}, !.locup = FALSE, !.pre = NoTbl,
-                                     !.post = NoTbl, !.loc = {},
-                                     !.locp = [x \in Prefixes |-> NoRoute]]
+  LET s0 == IF "declen" \in DOMAIN m THEN NoteIfNot(st, m.declen = m.toklen, "framing", "-") ELSE st IN
+  CASE m.t = "init" -> [Forget(NoteIfNot(s0, ~st.started, "init-twice", "-")) EXCEPT !.started = TRUE]
+    [] m.t = "term" -> [Forget(NoteIfNot(s0, st.started, "term-before-init", "-")) EXCEPT !.started = FALSE]
     [] m.t \in {"up", "down", "rm"} ->
-         LET s1 == NoteIfNot(s0, st.started, "before-init")
+         LET s1 == NoteIfNot(s0, st.started, "before-init", "-")
          IN IF m.t = "up" THEN StUp(s1, m) ELSE IF m.t = "down" THEN StDown(s1, m) ELSE StRm(s1, m)
-    [] m.t = "stats" -> NoteIfNot(s0, m.peer \in Peers /\ m.peer \in st.up, "bracket-stats")
-    [] OTHER -> Note(s0, "parse-other")
+    [] m.t = "stats" -> NoteIfNot(s0, m.peer \in Peers /\ m.peer \in st.up, "bracket-stats", "-")
+    [] OTHER -> Note(s0, "parse-other", "-")
 
 RECURSIVE StFold(_, _, _)
 StFold(st, ms, i) == IF i > Len(ms) THEN st ELSE StFold(StFold1(st, ms[i]), ms, i + 1)
 
 (* the station is switched on / off by configuration (input) *)
-StOn(st, pol) == [StInit EXCEPT !.on = TRUE, !.pol = pol, !.viol = st.viol, !.n = st.n]
+StOn(st, pol) == [StInit EXCEPT !.on = TRUE, !.pol = pol, !.initial = TRUE, !.viol = st.viol, !.n = st.n]
 StOff(st)     == [st EXCEPT !.on = FALSE]
+Tags(st) == {k[1] : k \in st.viol}
 
 ---------------------------------------------------------------------------
 (* what the station's tables must equal (property layer) *)
 
 PreExpected(p, x) == IF inr[p][x] = NoRoute THEN NoRoute ELSE RecvRec(inr[p][x])
+PreOk(o, p, x) == IF inr[p][x] = NoRoute THEN o = NoRoute ELSE o # NoRoute /\ SameStored(o, inr[p][x])
 
 (* post-policy Adj-RIB-In: the routes that passed inbound processing.  Whether a route that fails
    the AS-loop check counts as "post-policy" is not determined by RFC 7854: sandwich *)
